@@ -164,6 +164,25 @@ class _FakePsutilInstalled(object):
         return False
 
 
+class _FakePwd(object):
+    """pwd.getpwall() answers with the two users of the virtual machine while main() runs (trash-empty / trash-list
+    --all-users walk the password database): the invoking user (uid of the run, home /h) and 'other' (uid + 1, home /h2)"""
+
+    def __enter__(self):
+        import collections
+        import pwd
+        self.saved = pwd.getpwall
+        ent = collections.namedtuple('struct_passwd', ['pw_name', 'pw_passwd', 'pw_uid', 'pw_gid', 'pw_gecos', 'pw_dir', 'pw_shell'])
+        uid = getattr(ENV, 'uid', None) or 1000
+        pwd.getpwall = lambda: [ent('user', 'x', uid, uid, '', '/h', '/bin/sh'), ent('other', 'x', uid + 1, uid + 1, '', '/h2', '/bin/sh')]
+        return self
+
+    def __exit__(self, *a):
+        import pwd
+        pwd.getpwall = self.saved
+        return False
+
+
 SIGNAL_HANDLERS = {}
 
 
@@ -312,7 +331,7 @@ def _call_main(spec):
     code, exc = None, None
     try:
         try:
-            with _VirtualOsClock(), _FakePsutilInstalled(), _VirtualSignals():
+            with _VirtualOsClock(), _FakePsutilInstalled(), _VirtualSignals(), _FakePwd():
                 rc = main()
             code = 0 if rc is None else rc
         except SystemExit as e:
